@@ -102,7 +102,9 @@ func cleanup(indexDir string, repos []uint32, now time.Time, shardMerging bool) 
 		// tombstone the compound shards so we don't just rm them.
 		simple := shards[:0]
 		for _, s := range shards {
-			if shardMerging && maybeSetTombstone([]shard{s}, repo) {
+			// Independent of shardMerging: removing a compound shard would
+			// also remove the other repositories it contains.
+			if maybeSetTombstone([]shard{s}, repo) {
 				continue
 			}
 
@@ -146,10 +148,18 @@ func cleanup(indexDir string, repos []uint32, now time.Time, shardMerging bool) 
 			_ = os.Chtimes(shard.Path, now, now)
 		}
 
-		if shardMerging && maybeSetTombstone(shards, repo) {
-			continue
+		// Compound shards contain other repositories, so we tombstone the
+		// repository instead of moving the shard. This is independent of
+		// shardMerging: compound shards may be left over from when it was enabled,
+		// and a repository may be in both a simple and a compound shard.
+		simple := shards[:0]
+		for _, s := range shards {
+			if maybeSetTombstone([]shard{s}, repo) {
+				continue
+			}
+			simple = append(simple, s)
 		}
-		moveAll(trashDir, shards)
+		moveAll(trashDir, simple)
 	}
 
 	// Remove .tmp files from crashed indexer runs-- for example, if an indexer
